@@ -26,7 +26,8 @@ KINDS = ["posOnly", "posOrKw", "varPos", "kwOnly", "varKw"]
 RANK = dict((k, i) for i, k in enumerate(KINDS))
 NAMES = ["a", "b", "c", "d", "e", "f", "g", "h"]
 NEIGHBOURS = [{"from": "C08", "limit": 400, "why": "captures receive the call's argument values"},
-              {"from": "C09", "limit": 400, "why": "error factories receive the call's argument values"}]
+              {"from": "C09", "limit": 400, "why": "error factories receive the call's argument values"},
+              {"from": "C19", "limit": 400, "why": "a parameter called result / OLD of a function without postconditions is an ordinary parameter"}]
 
 
 HOSTILE = ["error", "contract", "func", "condition", "instance", "args", "kwargs", "resolved_kwargs", "description", "a_repr",
